@@ -193,6 +193,7 @@ pub struct SimInner {
     pub max_runnable: Cell<usize>,
     pub multi_choice_steps: Cell<u64>,
     stop: RefCell<Option<SimStop>>,
+    pub actor_steps: RefCell<BTreeMap<(&'static str, u64), u64>>,
 }
 
 #[derive(Clone)]
@@ -467,6 +468,7 @@ impl Sim {
                 max_runnable: Cell::new(1),
                 multi_choice_steps: Cell::new(0),
                 stop: RefCell::new(None),
+                actor_steps: RefCell::new(BTreeMap::new()),
             }),
         }
     }
@@ -579,6 +581,10 @@ impl Sim {
             };
             let step = inner.steps.get() + 1;
             inner.steps.set(step);
+            if step > inner.cfg.step_budget / 2 {
+                let name = inner.actors.borrow().iter().find(|a| a.id == actor_id).map(|a| a.name).unwrap_or("?");
+                *inner.actor_steps.borrow_mut().entry((name, actor_id)).or_insert(0) += 1;
+            }
             inner.mix(actor_id);
             if step > inner.cfg.step_budget {
                 return Poll::Ready(Err(SimStop::Budget));
